@@ -67,7 +67,7 @@ impl Prop for C12 {
         "sizes: subtree_width + merkle_mountain_range_sizes (through the cfg-guarded hook) for every share count 0..5200 and \
          2^k, 2^k±1 up to 200000, all app versions; width: subtree_width at perfect squares ±1 and powers of two ±1 \
          below 2^52 (f64 sqrt); commit: Blob::new commitment for blobs of 1..300 shares (thorough: up to 5000) with share counts \
-         around every subtree-width boundary (1,2,4,5,16,17,64,65,256,257,1024,1025,4096,4097), exact-fill and short last shares, \
+         around every subtree-width boundary (1,2,4,5,16,17,64,65,128,129,256,257,1024,1025; S10: also 511,512,513,2047,2048,2049 in the quick tier, one signer variant each; thorough adds 4095,4096,4097,5000), exact-fill and short last shares, \
          both share versions, app versions 1..7; validate: Blob::validate with the honest commitment and with tampered data / \
          namespace / signer / commitment / share version. Non-trivial = every case; distinct = distinct (op, result) lines."
     }
@@ -107,12 +107,20 @@ impl Prop for C12 {
         // --- commitments
         let mut counts: Vec<usize> = vec![1, 2, 3, 4, 5, 7, 8, 9, 15, 16, 17, 31, 33, 63, 64, 65, 100, 127, 128, 129, 255, 256, 257, 300];
         if tier == Tier::Thorough {
-            counts.extend([511, 512, 513, 1000, 1023, 1024, 1025, 2047, 2049, 3000, 4095, 4096, 4097, 5000]);
+            counts.extend([511, 512, 513, 1000, 1023, 1024, 1025, 2047, 2048, 2049, 3000, 4095, 4096, 4097, 5000]);
         } else {
             counts.extend([1024, 1025]);
         }
-        for &k in &counts {
+        // S10 size-threshold stress: the subtree-width boundaries 512/513 and 2048/2049 (width 8|16 and 32|64) were
+        // missing from the quick tier (and 2048 from both).  The Lean driver (SHA-256 + NMT in Lean, ~1.5 ms per share,
+        // model and spec pass) is the bottleneck, so these large counts get ONE signer variant each in the quick tier.
+        let single_variant: Vec<usize> = if tier == Tier::Thorough { vec![] } else { vec![511, 512, 513, 2047, 2048, 2049] };
+        counts.extend(single_variant.iter().copied());
+        for (ci, &k) in counts.iter().enumerate() {
             for with_signer in [false, true] {
+                if single_variant.contains(&k) && with_signer != (ci % 2 == 0) {
+                    continue;
+                }
                 let slack = if rng.bool() { 0 } else { rng.usize(1, 481) };
                 let len = len_for_shares(k, with_signer, slack);
                 let ns = user_ns(rng);
